@@ -271,7 +271,7 @@ package dataflow
 //@   requires intraState != nil && intraState.flowInfo != nil && intraState.instrPrev != nil && function != nil
 //@   requires 0 <= bi && bi < len(function.Blocks) && Wb() != nil && 0 < len(Wb().Instrs) && 0 <= pk && pk < len(Wb().Preds) && Wp() != nil && 0 < len(Wp().Instrs)
 //@   requires forall b int, i int :: 0 <= b && b < len(function.Blocks) && 0 <= i && i < len(function.Blocks[b].Instrs) ==> has(intraState.flowInfo.InstrID, function.Blocks[b].Instrs[i])
-//@   requires forall b int, i int, b2 int, i2 int :: 0 <= b && b < len(function.Blocks) && 0 <= i && i < len(function.Blocks[b].Instrs) && 0 <= b2 && b2 < len(function.Blocks) && 0 <= i2 && i2 < len(function.Blocks[b2].Instrs) && intraState.flowInfo.InstrID[function.Blocks[b].Instrs[i]] == intraState.flowInfo.InstrID[function.Blocks[b2].Instrs[i2]] ==> b == b2 && i == i2
+//@   requires forall b int, i int :: 0 <= b && b < len(function.Blocks) && 0 <= i && i < len(function.Blocks[b].Instrs) && (b != bi || i != 0) ==> intraState.flowInfo.InstrID[function.Blocks[b].Instrs[i]] != intraState.flowInfo.InstrID[Wf()]
 //@   loop block exit pred_edge_recorded: Wedge()
 //@   loop block invariant done_blocks: bi < iter(block) ==> Wedge()
 //@   loop instr invariant in_block: (bi < iter(block) ==> Wedge()) && (bi == iter(block) && 0 < iter(instr) ==> Wedge()) && (prevInstr == nil <==> iter(instr) == 0)
